@@ -569,7 +569,7 @@ func (t *Trans) execBuiltin(fr *Frame, b *ssa.Builtin, c *ssa.CallCommon, args [
 		for _, comp := range t.leafComps(elem) {
 			n := t.freshConst(env.comps[comp], comp+"@app")
 			old := fr.st.get(comp)
-			t.assume("true", fmt.Sprintf("(forall ((p!a Ref)) (! (= (select %s p!a) (ite (and ((_ is idx) p!a) (= (ibase p!a) %s)) (ite (bvult (iidx p!a) %s) (select %s (idx (sbase %s) (bvadd (soff %s) (iidx p!a)))) (select %s (idx (sbase %s) (bvadd (soff %s) (bvsub (iidx p!a) %s))))) (select %s p!a))) :pattern ((select %s p!a))))",
+			t.assume("true", fmt.Sprintf("(forall ((p!a Ref)) (! (= (select %s p!a) (ite (and (isidx p!a) (= (ibase p!a) %s)) (ite (bvult (iidx p!a) %s) (select %s (idx (sbase %s) (bvadd (soff %s) (iidx p!a)))) (select %s (idx (sbase %s) (bvadd (soff %s) (bvsub (iidx p!a) %s))))) (select %s p!a))) :pattern ((select %s p!a))))",
 				n, r, l1, old, s1, s1, old, s2, s2, l1, old, n))
 			fr.st = fr.st.set(comp, n)
 		}
